@@ -260,3 +260,37 @@ Theorem C02_transpose_pair_pass_sound :
     refines (tensor A) teq sem (tg_graph g) (tg_graph (transpose_pair_pass fuel g)) e.
 Proof. exact transpose_pair_pass_sound. Qed.
 Print Assumptions C02_transpose_pair_pass_sound.
+
+(* ---- remove_redundant_transpose_pairs_ir, EVERY phase: the Add-chain phase ("Pass -1") and the forest phase ("Pass -0.5",
+        which does most of the real folding) are proved as well (theories/TransposeRegion.v: the region rewrite is one
+        renaming of the kept nodes; simulation with the invariant "old value of a region output == Transpose p (new value)",
+        ElemCommute.pwn_transpose node by node, the rank bound from T2's acceptance along consumer paths).  Both need the
+        guards added to /repo after this proof attempt exposed that, with a self-inverse perm, a Transpose can be an input
+        and a consumer of the region at once (fe64f21 and the Add-chain repair).  World hypothesis besides SSA and true
+        one-element flags: uniform_operands (no genuine broadcasting between two multi-element operands of an elementwise
+        node in the run at hand).  The residual action kinds outside proved_kind_all are listed at its definition. *)
+From J2O Require Import TransposeRegion.
+
+Theorem C02_transpose_pair_action_sound_all :
+  forall (A : Type) (sem : string -> list nat -> list (tensor A) -> option (list (tensor A))),
+  (forall op ats vs vs' o, Forall2 teq vs vs' -> sem op ats vs = Some o -> exists o', sem op ats vs' = Some o' /\ Forall2 teq o o') ->
+  sem_transpose_spec A sem op_type ->
+  forall F : string -> list nat -> list A -> A, sem_pointwise_spec_a A sem op_type F ->
+  forall Fcl : list nat -> tensor A -> A -> A, sem_castlike_spec_n A sem op_type Fcl -> castlike_type_only A Fcl ->
+  sem_accepts_spec_a A sem op_type ->
+  forall g act e, tadmissible_u A sem g e -> decide_step g = Some act -> proved_kind_all g act = true ->
+    refines (tensor A) teq sem (tg_graph g) (tg_graph (apply_taction g act)) e.
+Proof. exact transpose_pair_action_sound_all. Qed.
+Print Assumptions C02_transpose_pair_action_sound_all.
+
+Theorem C02_transpose_pair_pass_sound_all :
+  forall (A : Type) (sem : string -> list nat -> list (tensor A) -> option (list (tensor A))),
+  (forall op ats vs vs' o, Forall2 teq vs vs' -> sem op ats vs = Some o -> exists o', sem op ats vs' = Some o' /\ Forall2 teq o o') ->
+  sem_transpose_spec A sem op_type ->
+  forall F : string -> list nat -> list A -> A, sem_pointwise_spec_a A sem op_type F ->
+  forall Fcl : list nat -> tensor A -> A -> A, sem_castlike_spec_n A sem op_type Fcl -> castlike_type_only A Fcl ->
+  sem_accepts_spec_a A sem op_type ->
+  forall fuel g e, tadmissible_along_all A sem fuel g e ->
+    refines (tensor A) teq sem (tg_graph g) (tg_graph (transpose_pair_pass fuel g)) e.
+Proof. exact transpose_pair_pass_sound_all. Qed.
+Print Assumptions C02_transpose_pair_pass_sound_all.
